@@ -18,6 +18,7 @@ def register(add, parse, find_func, const_int, rat_of, ShapeError, module_assign
         if py not in attrs:
             raise ShapeError(f"GmxMarket.__init__: self.{py} = <int> not found")
         add(lean, "Nat", str(attrs[py]), f"GmxMarket.{py} ({what})")
+    add("gmxUsdgDecimals", "Nat", str(const_int(module_assign(tree, "USDG_DECIMALS"))), "gmx/market.py USDG_DECIMALS (adjustForDecimals)")
     add("gmxPricePrecision", "Nat", str(const_int(module_assign(parse("demeter/gmx/_typing.py"), "PRICE_PRECISION"))), "gmx/_typing.py PRICE_PRECISION")
 
     # _collect_swap_fee: token_amount * fee_point / 10000
